@@ -46,8 +46,12 @@ pub fn open_as_container_pack(reader: Reader) -> Result<ContainerPack> {
     }
     let (pack_header, offset) = match reader.parse_block_at::<PackHeader>(Offset::zero()) {
         Ok(pack_header) => (pack_header, Offset::zero()),
-        Err(_) => {
+        Err(e) => {
             //Check at end
+            if reader.size() < Size::new(64) {
+                // Too small to contain a pack
+                return Err(e);
+            }
             let mut buffer_reader = [0u8; 64];
             reader
                 .create_stream((reader.size() - Size::new(64)).into(), Size::new(64), false)?
@@ -55,6 +59,13 @@ pub fn open_as_container_pack(reader: Reader) -> Result<ContainerPack> {
             buffer_reader.reverse();
             let end_reader: Reader = buffer_reader.into();
             let pack_header = end_reader.parse_block_at::<PackHeader>(Offset::zero())?;
+            if pack_header.file_size > reader.size() {
+                return Err(format_error!(&format!(
+                    "Pack size ({}) is bigger than the file ({})",
+                    pack_header.file_size,
+                    reader.size()
+                )));
+            }
             let origin = reader.size() - pack_header.file_size;
             (pack_header, origin.into())
         }
